@@ -5,7 +5,7 @@ here=$(cd "$(dirname "$0")/.." && pwd)
 export GOFLAGS=-mod=mod GOPROXY=off GOSUMDB=off GOTOOLCHAIN=local GOWORK=off
 work=$(mktemp -d /tmp/rl_benign.XXXXXX)
 trap 'rm -rf "$work"' EXIT
-rsync -a --exclude .git /repo/ "$work/base/"
+rsync -a --exclude .git "${VERIF_REPO:-/repo}/" "$work/base/"
 n=0
 for d in "$@"; do
   d=$(cd "$d" && pwd)
@@ -15,7 +15,7 @@ for d in "$@"; do
     (
       cp -r "$work/base" "$work/$name"
       if ! (cd "$work/$name" && git apply "$p" 2>/dev/null); then echo "BENIGN $name: patch does not apply"; rm -rf "$work/$name"; exit; fi
-      "$here/bin/rosmarlint" -repo "$work/$name" -prop all -known "$here/known_findings.json" > "$work/$name.out" 2>&1
+      "$here/bin/rosmarlint" -repo "$work/$name" -prop "${BENIGN_PROP:-all}" -known "$here/known_findings.json" > "$work/$name.out" 2>&1
       bad=$(grep -E '^[^ ].*: (VIOLATION|UNDECIDED): ' "$work/$name.out" | sed -E 's/^[^ ]+: //' | sort -u)
       if grep -q "load failed" "$work/$name.out"; then echo "BENIGN $name: does not type-check"; 
       elif [ -z "$bad" ]; then echo "BENIGN $name: silent"; else echo "BENIGN $name: FALSE ALARM"; printf '%s\n' "$bad" | sed 's/^/     /'; fi
